@@ -17,7 +17,7 @@ from vlib.props import c06
 
 ID = 'C09'
 TITLE = 'posterior summaries'
-CASES = {'quick': 70, 'thorough': 4800}
+CASES = {'quick': 110, 'thorough': 6400}
 SHARDS = {'quick': 1, 'thorough': 16}
 RULE = ('Generated: a small retrievable world, 1-4 fitted parameters with drawn priors, 0-3 derived parameters, '
         'an observation, and a posterior sample set of 1-80 points (drawn through the priors so every sample '
@@ -55,7 +55,14 @@ def _case(draw):
     w = draw(S.world(layers=(3, 8), nwn=(24, 32), max_active=2, extras=('SimpleClouds',), temps=('iso',), mags=['mixed']))
     w['extras'] = ['SimpleClouds'] if family == 'transmission' else []
     w['fill'] = ['H2', 'He']
-    return {'world': w, 'sampler': sampler, 'family': family, 'fitted': list(fitted), 'priors': pri,
+    tiny = draw(st.sampled_from([False, False, False, True]))
+    if tiny:
+        # a single trace abundance of order 1e-9 fitted in linear space: MAP and median differ by ~1e-9
+        fitted = ['mol0']
+        pri = {'mol0': dict(pri.get('mol0', {'a': 0.5, 'b': 1.8, 'std': 0.03}), kind='Uniform')}
+        w['gases'][0]['logmix'] = -9.0
+        w['gases'][0]['logtop'] = None
+    return {'tiny': tiny, 'world': w, 'sampler': sampler, 'family': family, 'fitted': list(fitted), 'priors': pri,
             'obs': draw(c06.observation_spec()), 'ns': ns, 'wkind': wkind, 'u': u, 'wr': wr, 'derived': derived,
             'ngauss': draw(st.integers(1, 2)), 'split': draw(st.floats(0.2, 0.8)),
             'size': draw(st.sampled_from(['heavy', 'light', 'lighter']))}
@@ -154,7 +161,9 @@ class Retrieval:
             name = c06.param_name(r, w)
             nom = float(self.m[name])
             spec = case['priors'][r]
-            if r == 'mol0':
+            if r == 'mol0' and case.get('tiny'):
+                kind, kw = 'Uniform', {'bounds': [nom * spec['a'], nom * spec['b']]}
+            elif r == 'mol0':
                 kind, kw = 'LogUniform', {'bounds': [math.log10(nom * spec['a']), math.log10(min(nom * spec['b'], 0.2))]}
             else:
                 kind, kw = c06.make_prior_spec(r, spec, nom)
@@ -228,6 +237,8 @@ def check(case):
         nonuni = len(set(np.round(R.weights / R.weights.max(), 12))) > 1
         out.cls('weights:' + ('nonuniform' if nonuni else 'uniform'))
         out.cls('wkind:' + case['wkind'])
+        if case.get('tiny'):
+            out.cls('tiny-parameter')
         if R.derived:
             out.cls('has-derived')
         from taurex import OutputSize
